@@ -601,6 +601,7 @@ func c10checkedIn(c *core.Check, rel, file string) {
 // ---- required-field bitset pairing in genFastRead
 func c10bitset(c *core.Check) {
 	c10visitsAll(c)
+	c10caseKey(c)
 	c10elemTypes(c)
 	fd := c.Prog.FuncDecl(fastgoRel, "FastGoBackend.genFastRead")
 	key := fastgoRel + ".(FastGoBackend).genFastRead"
